@@ -19,6 +19,8 @@ def size_classes(budget_kb):
         # not resident (oversize, or evicted while the caller still holds the object)
         "nd_over": {"t": "nd", "dtype": "int8", "n": b + 1},
         "nd_third": {"t": "nd", "dtype": "int8", "n": max(b // 3 - 128, 1)},
+        # a frame whose estimated size (random row sample) scatters around the budget; only for budgets that can hold 150 rows
+        "frame_var": ({"t": "framevar", "rows": 150, "avg": b // 150 - 58} if b // 150 > 100 else {"t": "str", "n": max(b // 3 - STR_OVERHEAD, 1), "c": "t"}),
     }
 
 
@@ -52,7 +54,7 @@ def history_strategy(max_ops=30, backends=("fs", "fsc", "mem"), overrides=False,
         sc = size_classes(min(budget_kb, 64))
         shared = draw(st.booleans())
         nkeys = draw(st.integers(1, 4))
-        keypool = draw(st.lists(st.tuples(st.sampled_from(FN_KEYS), st.integers(0, 2)),
+        keypool = draw(st.lists(st.tuples(st.sampled_from(FN_KEYS), st.sampled_from([0, 1, 2, 0, 1, 2, "@dt530", "@naive", "@date", "@nested", "@float"])),
                                 min_size=nkeys, max_size=nkeys))
         n = draw(st.integers(1, max_ops))
         ops = []
@@ -78,7 +80,7 @@ def history_strategy(max_ops=30, backends=("fs", "fsc", "mem"), overrides=False,
                    "read_meta", "isall", "getmany", "reopen", "reopen"]
                 + ["forget_function", "forget_everything"]))
             if kind == "memoize":
-                cls = draw(st.sampled_from(["val", "val", "third", "third", "fit", "over", "over", "nd_over", "nd_third", "nd_third", "part"]))
+                cls = draw(st.sampled_from(["val", "val", "third", "third", "fit", "over", "over", "nd_over", "nd_third", "nd_third", "part", "frame_var"]))
                 if cls == "part":
                     v = {"t": draw(st.sampled_from(["impart", "impart", "odpart"])), "v": {"a": sc["small"], "b": draw(st.sampled_from([sc["small2"], {"t": "int", "v": "7"}]))}}
                 elif cls == "val":
